@@ -87,7 +87,7 @@ for k in ("C08", "C10", "C11", "C16", "C17", "C18"):
 CHECKS["C19"]["text"] += " Thorough tier only: a native fuzz target (go test -fuzz) feeds raw bytes to ImportCollection as the file content; ill-formed content must fail without a trace, well-formed content must be imported exactly, the existing collection, its index and the catalog stay untouched."
 CHECKS["C19"]["technique"] += "; byte-level native fuzzing (go test -fuzz) of the import file in the thorough tier"
 EXTRA = {
-    "C05": " Crash targets include imports of 1100-2500 documents into a new collection (one operation: nothing of it may survive a kill inside it).",
+    "C05": " A short-file part cuts the data file of a new bbolt database to 0-16383 bytes (what a kill during the very first Open leaves behind) and requires the directory to open again, empty; the first three write / sync positions of every program (inside Open) are always among the kill points. Crash targets include imports of 1100-2500 documents into a new collection (one operation: nothing of it may survive a kill inside it).",
     "C13": " A dedicated part creates two collections whose name + index field spell the same text when joined by a separator (p / q<sep>r against p<sep>q / r) with shared document ids and checks scans, counts, index drops and collection drops on both.",
     "C15": " The cursor contract also covers keys deleted again, a rolled-back transaction (no trace) and two cursors open at once in one read-only transaction (independent positions).",
     "C18": " Has/Get of every path of the alphabet are compared with the reference lookup before and after Set (reads must not change the document), SetAll equals Set, Copy/AsMap show the same content, and document.Encode (what Insert does) must leave the document canonical and decode to it.",
